@@ -1,4 +1,6 @@
 import Drand.Beacon.Stream
+import Gen.Consts
+import Gen.Callback
 namespace Drand.Driver.StreamD
 open Drand Drand.Store Drand.Beacon.Stream
 
@@ -12,6 +14,8 @@ def streamBeacon (chained : Bool) (r : Nat) : Beacon :=
 
 structure StreamDrv where
   handover : Handover
+  /-- `some CallbackWorkerQueue` when the tree's callbackStore ends a stream whose queue is full (regenerated fact) -/
+  cap : Option Nat := if Gen.callbackOverflowEndsConsumer then some Gen.callbackWorkerQueue else none
   backend : String
   chained : Bool := true
   net : Option Net := none
@@ -62,7 +66,9 @@ def streamStep (d : StreamDrv) (f : List String) : StreamDrv × String :=
   | _, none => (d, "bad-state")
   | ["put"], some n =>
     let r := n.store.head + 1
-    ({ d with net := some (n.put (streamBeacon d.chained r)) }, s!"ok {r}")
+    ({ d with net := some (match d.cap with
+                            | some cap => n.putR cap (streamBeacon d.chained r)
+                            | none => n.put (streamBeacon d.chained r)) }, s!"ok {r}")
   | ["wait"], some _ => (d, "done")
   | ["head"], some n => (d, n.store.last.show)
   | ["get", r], some n =>
